@@ -10,7 +10,7 @@ generate_bootstrap_samples: for an int seed the per-sample seeds are rs[i] = def
 import z3
 from z3 import And, BoolVal, ForAll, Function, Implies, Int, IntSort, IntVal, K, Select
 
-from ..pyvc.core import Abstract, Contract, LoopSpec, Obj, PyList, SymSeq, Unsupported, is_z3
+from ..pyvc.core import fresh, Abstract, Contract, LoopSpec, Obj, PyList, SymSeq, Unsupported, is_z3
 
 BS = "fairlearn/metrics/_bootstrap.py"
 RSF = Function("seed_stream", IntSort(), IntSort(), IntSort())          # (int seed, i) -> i-th derived seed
@@ -70,6 +70,8 @@ class ManySamples(Contract):
     def on_call(self, eng, st, node, name, recv, args, kwargs):
         if name == "numpy.random.default_rng":
             s = kwargs.get("seed", args[0] if args else None)
+            if s is None:
+                s = fresh("operating_system_entropy")          # unseeded generator: a stream unrelated to the caller's integer seed
             return Abstract("gen", seed=s)
         if name == "numpy.iinfo":
             return Obj("iinfo", {"max": 2 ** 32 - 1, "min": 0})
@@ -115,6 +117,33 @@ class ManySamples(Contract):
             return [("returns_the_list_of_samples", BoolVal(False))]
         return [("returns_only_for_a_positive_sample_count", self.n >= 1), ("exactly_n_samples", value.n == self.n),
                 ("sample_k_is_a_function_of_the_integer_seed_and_k", ForAll([k_], Implies(And(0 <= k_, k_ < value.n), value.raw(k_) == SINGLE(RSF(self.seed, k_)))))]
+
+
+def _many_samples_replay(self, ob, r):
+    """native check on the real function: the seeds handed to the single-sample generator must be a function of the integer random_state (same seed twice
+    -> same seeds; covers seed 0)"""
+    import pandas as pd
+    import fairlearn.metrics._bootstrap as bs
+    seen = []
+    real = bs.generate_single_bootstrap_sample
+    bs.generate_single_bootstrap_sample = lambda **kw: seen.append(int(kw["random_state"])) or len(seen)
+    try:
+        for seed in (0, 1, 12345):
+            runs = []
+            for _ in range(2):
+                del seen[:]
+                bs.generate_bootstrap_samples(n_samples=4, random_state=seed, data=pd.DataFrame({"y_true": [0, 1]}), annotated_functions={},
+                                              sensitive_feature_names=["s"], control_feature_names=None)
+                runs.append(list(seen))
+            if runs[0] != runs[1] or len(runs[0]) != 4:
+                return {"confirmed": True, "key": "C18:generate_bootstrap_samples:not-reproducible", "replay": {"random_state": seed, "n_samples": 4, "seeds_run_1": runs[0], "seeds_run_2": runs[1]},
+                        "what": f"generate_bootstrap_samples(random_state={seed}, n_samples=4) hands different seeds to the resamples in two runs: {runs[0]} vs {runs[1]}"}
+    finally:
+        bs.generate_single_bootstrap_sample = real
+    return {"confirmed": False}
+
+
+ManySamples.replay = _many_samples_replay
 
 
 class BootstrapArguments(Contract):
@@ -178,3 +207,90 @@ class BootstrapArguments(Contract):
         else:
             out.append(("no_resampling_without_bootstrap_arguments", BoolVal(g is None)))
         return out
+
+
+# ------------------------------------------------------------------------------------------------ quantiles over the resamples
+ENTRY = Function("quantile_frame", IntSort(), IntSort())          # i -> the frame built for the i-th requested quantile (wiring checked where it is built)
+QN = Int("n_quantiles")
+
+
+class Quantiles(Contract):
+    """_calc_dataframe_quantiles / _calc_series_quantiles (wiring against the numpy contract): the by-group samples are first aligned to the union of their
+    indices (a group missing from a resample becomes a NaN row); the quantiles are taken over the resamples (axis 0) with the caller's quantile list by a
+    function that IGNORES those NaN rows (np.nanquantile) - np.quantile would turn every group that is missing from a single resample into NaN; entry i of
+    the result is quantile i with the columns/name and index of the (aligned) samples.  The sanity-check loop of asserts is dropped (asserts only)."""
+    source = BS
+
+    def __init__(self, kind):
+        self.kind = kind
+        self.function = "_calc_dataframe_quantiles" if kind == "frame" else "_calc_series_quantiles"
+
+    def body(self, fn):
+        return [s for s in fn.body if not (isinstance(s, __import__("ast").For) and all(isinstance(x, __import__("ast").Assert) for x in s.body))]
+
+    def params(self, eng, st):
+        self.samples, self.q = Abstract("samples", aligned=False), Abstract("quantiles")
+        st.assume(QN >= 1)
+        st.env.update({"samples": self.samples, "quantiles": self.q})
+
+    def on_call(self, eng, st, node, name, recv, args, kwargs):
+        if name == "_align_sample_indices":
+            eng.oblige(st, "the_callers_samples_are_aligned", BoolVal(len(args) == 1 and args[0] is self.samples), "wiring", node)
+            return Abstract("samples", aligned=True)
+        if name in ("numpy.nanquantile", "numpy.quantile", "numpy.percentile", "numpy.nanpercentile"):
+            return Abstract("qarray", fn=name, of=args[0] if args else None, q=kwargs.get("q", args[1] if len(args) > 1 else None), axis=kwargs.get("axis", args[2] if len(args) > 2 else None))
+        if name == "len" and args[0] is self.q:
+            return QN
+        if name in ("pandas.DataFrame", "pandas.Series"):
+            d = kwargs.get("data")
+            first = lambda v, attr: isinstance(v, Abstract) and v.tag == "first_sample_attr" and v.attr == attr
+            ok = isinstance(d, Abstract) and d.tag == "qslice" and is_z3(st.env.get("i")) and d.i.eq(st.env["i"]) and first(kwargs.get("index"), "index") \
+                and (first(kwargs.get("columns"), "columns") if self.kind == "frame" else first(kwargs.get("name"), "name"))
+            eng.oblige(st, "entry_i_is_quantile_i_with_the_labels_of_the_samples", BoolVal(bool(ok)), "wiring", node)
+            return ENTRY(d.i) if ok else Abstract("other_frame")
+        return NotImplemented
+
+    def on_subscript(self, eng, st, node, base, index):
+        if isinstance(base, Abstract) and base.tag == "samples" and index == 0:
+            return Abstract("first_sample", aligned=base.aligned)
+        if isinstance(base, Abstract) and base.tag == "qarray" and isinstance(index, tuple) and is_z3(index[0]):
+            return Abstract("qslice", i=index[0], of=base)
+        return NotImplemented
+
+    def on_attr(self, eng, st, node, base, attr):
+        if isinstance(base, Abstract) and base.tag == "first_sample" and attr in ("index", "columns", "name"):
+            return Abstract("first_sample_attr", attr=attr, aligned=base.aligned)
+        if isinstance(base, Abstract) and base.tag == "qarray" and attr == "shape":
+            return (QN, Int("n_groups"), Int("n_metrics")) if self.kind == "frame" else (QN, Int("n_groups"))
+        return NotImplemented
+
+    @staticmethod
+    def _prep(st):
+        r = st.env.get("result")
+        if isinstance(r, PyList) and not r.items:
+            st.env["result"] = SymSeq(K(IntSort(), IntVal(0)), IntVal(0))
+
+    def inv(self, st):
+        r, i = st.env["result"], st.env["$k1"]
+        return [("i_range", And(0 <= i, i <= QN)), ("one_entry_per_quantile_so_far", r.n == i),
+                ("kth_entry_is_the_kth_quantile", ForAll([k_], Implies(And(0 <= k_, k_ < r.n), r.raw(k_) == ENTRY(k_)), patterns=[Select(r.arr, k_)]))]
+
+    def havoc_abstract(self, eng, st, name, v):
+        return v
+
+    def loops(self):
+        return {1: LoopSpec(self.inv, prepare=self._prep)}          # loop ordinal 1: the result loop (ordinal 0, the sanity-check loop, is dropped)
+
+    def post(self, eng, st, status, value):
+        if status != "return":
+            return [("raises_only_from_the_quantile_function", BoolVal(status == "raise" and getattr(value, "typ", "") in ("ValueError", "AssertionError")))]
+        qa = st.env.get("result_np")
+        ok = isinstance(qa, Abstract) and qa.tag == "qarray"
+        out = [("quantiles_of_the_callers_list_over_the_resamples", BoolVal(ok and qa.q is self.q and qa.axis == 0 and isinstance(qa.of, Abstract) and qa.of.tag == "samples"
+                                                                            and (qa.of.aligned or self.kind == "series")))]
+        if self.kind == "frame":
+            out.append(("groups_missing_from_a_resample_are_ignored_not_propagated_as_NaN", BoolVal(ok and qa.fn in ("numpy.nanquantile",))))
+        if not isinstance(value, SymSeq):
+            return out + [("returns_the_list_of_quantile_frames", BoolVal(False))]
+        return out + [("one_entry_per_requested_quantile", value.n == QN),
+                      ("entry_k_is_quantile_k", ForAll([k_], Implies(And(0 <= k_, k_ < value.n), value.raw(k_) == ENTRY(k_))))]
